@@ -261,10 +261,18 @@ def tvd_separable(ctx, g, dims, limiter):
     fixed = pf.convectionTVDupwindRHSTerm(fa, phi, FL, fa)
     G = scen.cell_index(dims)
     tag = 'C17/%s/%s/tvd_separable/%s' % (g, 'x'.join(map(str, dims)), limiter)
+    nd = len(dims)
     for cc in scen.interior_cells(dims):
         k = int(G[cc])
-        ctx.eq('%s/separable/%s' % (tag, '_'.join(map(str, cc))), full[k], acc[k], timeout=60)
-        ctx.eq('%s/scale/%s' % (tag, '_'.join(map(str, cc))), scaled[k], lam * fixed[k], timeout=60)
+        # fallback when the single query is not decided: the sign patterns of the velocities on the faces of the cell
+        around = []
+        for ax in range(nd):
+            i0 = tuple(q - 1 for q in cc)
+            hi = list(i0); hi[ax] += 1
+            around += [A[ax][i0], A[ax][tuple(hi)]]
+        fb = ctx.sign_cubes(around) if nd < 3 else None
+        ctx.eq('%s/separable/%s' % (tag, '_'.join(map(str, cc))), full[k], acc[k], timeout=60, fallback_cubes=fb)
+        ctx.eq('%s/scale/%s' % (tag, '_'.join(map(str, cc))), scaled[k], lam * fixed[k], timeout=60, fallback_cubes=fb)
 
 
 def scenarios(tier):
